@@ -271,7 +271,7 @@ FEATURE_GROUPS = [
     ("stack", {"stack"}),
     ("stack+ws", {"stack", "ws", "mods"}),
     ("ci+builtin", {"ci", "builtin"}),
-    ("tags", {"tags", "ws"}),
+    ("tags", {"tags", "ws", "builtin"}),
     ("skipish", {"skipish", "ws", "mods"}),
     ("all", {"bounded", "ws", "cm", "mods", "stack", "ci", "builtin", "tags", "skipish"}),
 ]
@@ -314,16 +314,17 @@ def gen_expr(rng: random.Random, depth: int, feats: set, names: list[str], tagn=
         return ("range", *rng.choice([("a", "b"), ("a", "c"), ("b", "c"), ("A", "C")]))
     if k == "id":
         return ("id", rng.choice(names), tag())
+    # (a reference to a built-in rule may be tagged like any other)
     if k == "any":
-        return ("id", "ANY", None)
+        return ("id", "ANY", tag())
     if k == "eoi":
-        return ("id", "EOI", None)
+        return ("id", "EOI", tag())
     if k == "digit":
-        return ("id", "ASCII_DIGIT", None)
+        return ("id", "ASCII_DIGIT", tag())
     if k == "nl":
-        return ("id", "NEWLINE", None)
+        return ("id", "NEWLINE", tag())
     if k == "hex":
-        return ("id", "ASCII_HEX_DIGIT", None)
+        return ("id", "ASCII_HEX_DIGIT", tag())
     if k == "pushlit":
         return ("pushlit", rng.choice(["a", "b", "ab", ""]))
     if k in ("peek", "pop", "drop", "peekall", "popall"):
@@ -478,7 +479,9 @@ def gen_sentence(rng: random.Random, rules, e, depth=0) -> str:  # noqa: PLR0911
 
 
 EXOTIC_INPUT_CHARS = ["\ud83d", "\ude00", "\ud800", "\udbff", "\udfff", "\U0001F600", "\x00", "\u2028", "\u2029", "\x85", "\r",
-                      "\u00df", "\ufb01", "\uffff", "\U0010ffff"]
+                      "\u00df", "\ufb01", "\uffff", "\U0010ffff",
+                      # digits, letters and blanks that are not ASCII (what str.isdigit / isalpha / isspace also accept)
+                      "\u0663", "\uff14", "\u00b2", "\u00e9", "\u0391", "\u00a0", "\u3000"]
 # (not U+0130 / U+0131 / U+212A / U+017F: the `regex` engine folds them onto the ASCII letters i, k, s - the open finding
 #  ci-nonascii-fold, which has its own oracle (ci_fold_oracle) and is outside the models)
 
@@ -497,6 +500,8 @@ def gen_inputs(rng: random.Random, rules, start: str, feats: set, n: int) -> lis
                 # now and then a character nobody wrote a grammar for: unpaired surrogates (a `str` may hold them), an astral
                 # character, NUL, the Unicode line separators, letters whose case mappings change length
                 ch = rng.choice(EXOTIC_INPUT_CHARS) if rng.random() < 0.12 else rng.choice(alpha)
+                if "builtin" in feats and rng.random() < 0.25:
+                    ch = rng.choice(EXOTIC_INPUT_CHARS[-7:])       # beside the built-in character classes: non-ASCII digits, letters, blanks
                 s = s[:j] + ch + s[j + (rng.random() < 0.5):]
             elif mode == 3:
                 s = s[: rng.randint(0, len(s))] + (rng.choice(EXOTIC_INPUT_CHARS[:6]) if rng.random() < 0.15 else rng.choice(["", "", " ", "#", "a"]))
@@ -1059,6 +1064,41 @@ def squash_nested_grid(trivia_kinds=("none", "cm", "ws")):
                                 rules["WHITESPACE"] = ("_", L(" "))
                             passes = inline_first[n % len(inline_first)] if carrier == "silent" or n % 5 == 0 else None
                             out.append((rules, passes))
+    return out
+
+
+def trivia_shape_grid():
+    """one list grammar under every shape of the implicit rules: WHITESPACE only / COMMENT only / both; silent or not; bodies that
+    are one literal, a choice of literals (which the optimizer fuses into a regular expression), a choice with NEWLINE, a
+    sequence, or a reference to an ordinary (non-silent) rule - whose pairs must appear wherever the trivia matched"""
+    L = lambda x: ("str", x)  # noqa: E731
+    ws_bodies = [L(" "), ("choice", [L(" "), L("\t")]), ("choice", [L(" "), ("id", "NEWLINE", None)]), ("seq", [L(" "), L("\t")]),
+                 ("id", "blank", None)]
+    cm_bodies = [L("#"), ("seq", [L("#"), ("id", "word", None)]), ("choice", [("id", "doc", None), L("#")]),
+                 ("seq", [L("#"), ("rep", ("range", "x", "y")), L("#")])]
+    out = []
+    n = 0
+    for ws in [None, *ws_bodies]:
+        for cm in [None, *cm_bodies]:
+            if ws is None and cm is None:
+                continue
+            for ws_mod in (("_", "") if ws is not None else ("_",)):
+                for cm_mod in (("_", "") if cm is not None else ("_",)):
+                    n += 1
+                    item_mod = ["", "@", "$", "!"][n % 4]
+                    rules = {"r": (["", "", "!"][n % 3], ("seq", [("id", "item", None), ("rep", ("group", ("seq", [L(";"), ("id", "item", None)]), None)),
+                                                                  ("id", "EOI", None)])),
+                             "item": (item_mod, ("rep1", ("id", "word", None)))}
+                    rules["word"] = ("", ("range", "a", "b"))
+                    if ws is not None:
+                        rules["WHITESPACE"] = (ws_mod, ws)
+                        if ws == ("id", "blank", None):
+                            rules["blank"] = ("", L(" "))
+                    if cm is not None:
+                        rules["COMMENT"] = (cm_mod, cm)
+                        if cm[0] == "choice":
+                            rules["doc"] = ("", ("seq", [L("#"), L("#")]))
+                    out.append(rules)
     return out
 
 
